@@ -1,6 +1,7 @@
 """C14 - scores form a total order matching game-theoretic preference."""
 import itertools
 from analysis.runner import rule
+from analysis.effects import subterms
 from analysis.facts import AnchorError
 from analysis import terms as T
 
@@ -28,7 +29,10 @@ def cmp_table(ctx, key, wrap_some=False):
     P = ctx.P
     ctx.used_body(key)
     eng = T.Engine(P)
-    leaves = eng.tabulate(key)
+    allv = eng.tabulate(key, keep_panics=True)
+    leaves = [lf for lf in allv if lf.ret[0] != "panic"]
+    # a self-check (`debug_assert!(fact about constants, ..)`): a condition over constants only whose other outcome panics is not a case split
+    asserted = {(t, 1 - v) for lf in allv if lf.ret[0] == "panic" for t, v in lf.cond[-1:] if v in (0, 1) and not any(s_[0] == "param" for s_ in subterms(t))}
     a0, a1 = ("obj", ("param", 0, P.body(key)["locals"][1].get("n", "arg0"))), ("obj", ("param", 1, P.body(key)["locals"][2].get("n", "arg1")))
     table = {}
     for lf in leaves:
@@ -38,6 +42,8 @@ def cmp_table(ctx, key, wrap_some=False):
                 va = v
             elif t == ("discr", a1):
                 vb = v
+            elif (t, v) in asserted:
+                continue
             else:
                 raise AnchorError(f"{key}: branch on something other than the operands' variants: {T.show(t)}")
         ret = lf.ret
